@@ -94,7 +94,7 @@ class C10(framework.PropertyCheck):
             return [gen_reader.esc(case['chars']), '(a ' + gen_reader.esc(case['chars']) + ')']
         if k == 'layout':
             return [gen_reader.join(case['toks']), gen_reader.join(case['toks'], random.Random(case['seed'])),
-                    ' \n' + gen_reader.join(case['toks'], random.Random(case['seed'] + 1)) + ' ; trailing comment']
+                    ' \n' + gen_reader.join(case['toks'], random.Random(case['seed'] + 1)) + (' ; trailing comment' if case['seed'] % 3 else ' ;')]
         if k == 'prefix':
             return [case['s'], case['s'] + case['junk']]
         return []
